@@ -94,6 +94,9 @@ func (p *Path) entailed(k string) int {
 	if v := p.otherConstant(k); v != 0 {
 		return v
 	}
+	if v := p.writtenOutPrefix(k); v != 0 {
+		return v
+	}
 	return entails(p.Atoms, &p.rel, k)
 }
 
@@ -122,6 +125,40 @@ func (p *Path) oneBytePrefix(k string) int {
 			}
 			return -1
 		}
+	}
+	return 0
+}
+
+// writtenOutPrefix: strings.HasPrefix(s, "lit") written out as
+// len(s) >= len("lit") && s[:len("lit")] == "lit". The comparison of the
+// slice decides the prefix test where it was evaluated (it is evaluated only
+// where the slice expression did not panic, i.e. len(s) >= len("lit")), and a
+// path on which s is shorter than the literal fixes the test to false.
+func (p *Path) writtenOutPrefix(k string) int {
+	const pre = "call:strings.HasPrefix("
+	if !strings.HasPrefix(k, pre) || !strings.HasSuffix(k, ")") {
+		return 0
+	}
+	i := strings.LastIndex(k, ", \"")
+	if i < 0 {
+		return 0
+	}
+	lit, err := strconv.Unquote(k[i+2 : len(k)-1])
+	if err != nil || len(lit) == 0 {
+		return 0
+	}
+	s, n := k[len(pre):i], strconv.Itoa(len(lit))
+	want := "bin:==(slice(" + s + ", _, " + n + ", _), " + k[i+2:len(k)-1] + ")"
+	for _, a := range p.Atoms {
+		if a.T.Key() == want {
+			if a.Pos {
+				return 1
+			}
+			return -1
+		}
+	}
+	if entails(p.Atoms, &p.rel, "bin:<(len:builtin.len("+s+"), "+n+")") == 1 {
+		return -1
 	}
 	return 0
 }
